@@ -52,14 +52,17 @@ Print Assumptions C08_limit.
    started for a request line that the URL / Titan model accepts (hence at most 1024 bytes with CRLF, valid UTF-8,
    absolute gemini:// or well-formed titan://), and an upload is started with exactly the declared number of bytes *)
 From NV Require Model.ServerProto Spec.ServerTrace Proofs.C08_server.
-Theorem C08_invoked_only_valid : forall ip6 handler mw up ip fp evs,
-  let acts := Spec.ServerTrace.flat (ServerProto.run ip6 handler mw up ip fp ServerProto.init evs) in
+Theorem C08_invoked_only_valid : forall ip6 handler mw up ucf ip fp evs,
+  let acts := Spec.ServerTrace.flat (ServerProto.run ip6 handler mw up ucf ip fp ServerProto.init evs) in
   (forall line, In (ServerProto.AHandler line) acts -> exists p, gemini_from_line ip6 line = Ok p) /\
   (forall id url i f, In (ServerProto.AMw id url i f) acts ->
       i = ip /\ f = fp /\
       ((exists line p, gemini_from_line ip6 line = Ok p /\ url = p_norm p) \/
        (exists line t, titan_from_line ip6 line = Ok t /\ url = titan_normalized t /\ up = true))) /\
   (forall id line content, In (ServerProto.AUpload id line content) acts ->
+      up = true /\ exists t, titan_from_line ip6 line = Ok t /\ N.of_nat (length content) = t_size t) /\
+  (* ... also when the upload handler's call fails before it has produced an awaitable *)
+  (forall line content, In (ServerProto.AUploadCall line content) acts ->
       up = true /\ exists t, titan_from_line ip6 line = Ok t /\ N.of_nat (length content) = t_size t).
 Proof. exact C08_server.invoked_only_valid. Qed.
 Print Assumptions C08_invoked_only_valid.
